@@ -18,7 +18,7 @@ GROUP_PROP = {
 }
 
 
-def run(prop, tier, cases, run_case, rule, replay=None, sig_extra=None, nontrivial=None, batch=200, rep=None):
+def run(prop, tier, cases, run_case, rule, replay=None, sig_extra=None, nontrivial=None, batch=200, rep=None, design=None):
     """cases: list of dicts with 'id'; run_case(case) -> {'id', 'ev': [events]} (executed in workers)."""
     collect = rep is not None
     rep = rep or Report(prop, tier)
@@ -26,6 +26,18 @@ def run(prop, tier, cases, run_case, rule, replay=None, sig_extra=None, nontrivi
     if replay:
         with open(replay) as f:
             cases = [json.load(f)["case"]["case"]]
+    if design and not replay and not collect:
+        # R1: the algebra part of the property, decided for all contents on spec/Algebra.tla
+        from tlcrun import run_tlc, stats_of, require_clean
+
+        cfg = design[0] if tier == "quick" else design[1]
+        res = run_tlc("Algebra", cfg, rd, timeout=3000, gc="parallel", heap="12g")
+        require_clean(res, "Algebra/" + cfg)
+        st = stats_of(res)
+        st["invariants_violated"] = res["invariant_violated"]
+        rep.add_tlc(st)
+        if res["invariant_violated"]:
+            print("SPEC-DRIFT property=%s design-level invariant %s violated in Algebra.tla (%s)" % (prop, res["invariant_violated"], cfg), flush=True)
     traces = family.pmap(run_case, cases, chunksize=2)
     verdicts = family.judge_traces(rep, "TraceOps", "TraceOps.cfg", traces, rd, batch=batch)
     by_id = {c["id"]: c for c in cases}
